@@ -235,6 +235,22 @@ for _lab, _r, _c, _stored in RANGE_CASES:
         cross_key=lambda v: (v['log'], v['shape'], v['vals']) if isinstance(v, dict) else repr(v), max_paths=200))
 
 
+# the same contract under the properties whose functions fold over the elements of a range: the elements they are handed are ALL the cells
+# that hold something - a FALSE, a 0 or a 0.0 far down a long range as much as any other value (C10: AND / OR; C14: the aggregates)
+for _prop in ('C10', 'C14'):
+    for _lab, _r, _c, _stored in RANGE_CASES[1:3]:
+        UNITS.append(Unit(
+            id=f'{_prop}/ast_nodes.RangeNode.eval/every_element_is_handed_over[{_lab}]', target='xlcalculator.ast_nodes:RangeNode.eval', prop=_prop,
+            inputs=[('far', FAR)],
+            cases=[Case('the array handed to a function holds, in place, the value of every cell of the range that holds something - numbers, texts and '
+                        'booleans of any value, FALSE and zero included - however many empty cells precede it',
+                        lambda far: True,
+                        (lambda r, c, st: lambda far, out: range_ens(r, c, st, None)(far.value, out))(_r, _c, _stored))],
+            call=(lambda r, c, st: (lambda it, fn, far: range_call(False, r, c, st)(it, fn, far.value)))(_r, _c, _stored),
+            native_call=(lambda r, c, st: (lambda fn, far: range_call(True, r, c, st)(fn, far.value)))(_r, _c, _stored),
+            cross_key=lambda v: (v['log'], v['shape'], v['vals']) if isinstance(v, dict) else repr(v), max_paths=200))
+
+
 # ---- P4': the extent is decided at EVERY evaluation (a cell that receives a value later is inside the next evaluation) -----------------------
 def range_twice_call(native, rows):
     def call(it, fn, far):
